@@ -142,6 +142,7 @@ Definition run_l0 (ps : list bytes) (nkeep : N) (ls : list (list table)) (os : l
           let pc := pick_check ls c in
           if negb ((pc =? 0) || (pc =? 2011)) then (pc, ls, os, false)
           else if negb ((c_this c =? 0)%nat && negb (c_next c =? 0)%nat) then (212, ls, os, false)
+          else if negb (ids_eqb (ids_of (nth 0 ls [])) (c_top c)) then (213, ls, os, false)   (* out = top: ALL L0 tables *)
           else if negb (prefixes_eqb (c_drop c) ps) then (205, ls, os, false)
           else if negb (c_nkeep c =? nkeep) then (206, ls, os, false)
           else let '(code, ls') := apply_obs ls c out in (code, ls', os', pc =? 2011)
